@@ -74,3 +74,11 @@ K("awkward_ListArray_getitem_next_range",
 K("awkward_ListArray_getitem_next_range_carrylength",
   requires=[LE("fromstarts", "fromstops", "lenstarts"), "step != 0"],
   serves=["C01", "C12", "C13"])
+
+
+# C01 (index arrays containing missing values): the index array is repeated for every row; a present entry selects
+# inside its own row (shifted by row * regularsize, including entry 0), a missing entry stays missing
+K("awkward_missing_repeat",
+  store_asserts={"outindex": ["at == i*indexlength + j",
+                              "value == ite(index[j] >= 0, index[j] + i*regularsize, index[j])"]},
+  serves=["C01", "C12", "C13"])
